@@ -121,7 +121,9 @@ def run_tlc(module, cfg, *, tag, workers=16, extra=(), timeout=3600, env=None, u
     cfg_path = os.path.join(work, module + ".cfg")
     with open(cfg_path, "w") as f:
         f.write(cfg)
-    cmd = ["java", "-XX:+UseParallelGC", "-Xss64m"]
+    os.makedirs(os.path.join(work, "tmp"), exist_ok=True)
+    # (TLC unpacks its standard modules into java.io.tmpdir on every start: keep that inside the work directory, which is removed)
+    cmd = ["java", "-XX:+UseParallelGC", "-Xss64m", "-Djava.io.tmpdir=" + os.path.join(work, "tmp")]
     if java_opts:
         cmd += list(java_opts)
     cmd += ["-cp", JAR + ":/opt/veriftools/tla/CommunityModules-deps.jar", "tlc2.TLC",
